@@ -388,7 +388,7 @@ func check(c taintCase) (fl *harness.Failure, st stats) {
 func TestCheckTaint(t *testing.T) {
 	s := harness.NewSub("tainted-documents",
 		"documents in which every value kind (given names, surnames, suffixes, further names and all NAME parts, sex, event values, dates alone and behind a keyword, places and countries, causes, notes at three levels, occupations, event types, identifiers, custom tag values, inline sources, marriage and divorce data, source titles and five kinds of source properties incl. nested ones, optionally the pointers themselves) carries a unique token Tq<n>x<\"'&>y; published with a visibility and a random page-group mask, then the diff report (2 show x 2 sort) against an edited copy in that visibility, then the same document objects again with another visibility (all page groups, and the diff report), then a last time with everybody shown, and six queries in HTML format; in half of the documents every third person is living, so that it depends on the mode and the order of rendering whether a value was rendered before; oracle: wherever a token id occurs, the bytes up to the closing y contain no raw < > \" ' and no bare &, every page tokenises and is well nested; each case is also run with benign values as a control; non-trivial = at least 5 distinct value kinds reach an output")
-	s.Rapid(t, harness.Share(harness.Pick(2000, 100000)), 180, func(rt *rapid.T) {
+	s.Rapid(t, harness.Share(harness.Pick(2000, 50000)), 180, func(rt *rapid.T) {
 		c := taintCase{
 			People: rapid.IntRange(1, 4).Draw(rt, "people"), Families: rapid.IntRange(0, 2).Draw(rt, "families"), Sources: rapid.IntRange(0, 2).Draw(rt, "sources"),
 			Vis:  rapid.SampledFrom([]string{"show", "show", "hide", "placeholder"}).Draw(rt, "vis"),
